@@ -217,6 +217,76 @@ def valgrind_post(ctx, plain, k, kind, axi, san=None):
     return None, p
 
 
+def history_session(ctx, san, k, kind):
+    """one femmcli process that post-processes a LARGE solution, then a small one, then the large one again (function-level
+    statics, caches and scratch arrays sized for an earlier document must not leak into the next): sanitizer reports are
+    violations, and the small problem's answers must be those of a fresh process."""
+    rng = vlib.Rng(ctx.seed * 7 + k)
+    if kind != "fem":
+        big = femgen.gen_scalar_problem(rng, kind, size_nodes=2500, box="material")
+        small = femgen.gen_scalar_problem(rng, kind, size_nodes=25, box=None)
+    else:
+        kf = [j for j in range(40) if geomgen.KINDS[(j // len(geomgen.FAMS) + j) % 3] == "fem"]
+        big = geomgen.gen_any(rng, kf[1], quick=False)
+        small = geomgen.gen_any(rng, kf[0], quick=True)
+    for q in (big, small):
+        q["dosmartmesh"] = 0
+    wd = os.path.join(ctx.work, "hist%d" % k)
+    os.makedirs(wd, exist_ok=True)
+    files = []
+    for nm, q in (("big", big), ("small", small)):
+        f = os.path.join(wd, nm + EXT[q["kind"]])
+        femgen.write(q, f)
+        for tool, args in (("fmesher", [f]), (SOLVER[q["kind"]], [f[:-4]])):
+            rc, rep, tail = run_tool(san, tool, args, wd)
+            if rep or rc != 0:
+                return ("sanitizer report in %s:\n%s" % (tool, rep)) if rep else "%s failed (rc=%d): %s" % (tool, rc, tail), dict(big=big, small=small)
+        files.append((f, q))
+
+    def probes(q):
+        pts = []
+        for lab in q["labels"][:3]:
+            pts.append((lab["x"], lab["y"]))
+        xs = [pt["x"] for pt in q["points"]]
+        ys = [pt["y"] for pt in q["points"]]
+        pts.append((max(xs) + 1.0, max(ys) + 1.0))           # outside the mesh: the search visits every element
+        for pt in q["points"][:3]:
+            pts.append((pt["x"], pt["y"]))                   # drawn points (mesh vertices)
+        return [("nodes",)] + [("point", x, y) for (x, y) in pts] + [("block", [(q["labels"][0]["x"], q["labels"][0]["y"])], {"fee": 0, "feh": 1, "fem": 5}[q["kind"]])]
+
+    def part(f, q):
+        txt = femmrun.query_script(q["kind"], f, probes(q), analyze=False)
+        return txt.replace('print("R done")\n', "")
+    head = part(files[0][0], big)
+    lua_hist = os.path.join(wd, "hist.lua")
+    # the out() helper is defined by every part; parts are separated by a marker line
+    open(lua_hist, "w").write(head + 'print("R mark1")\n' + part(files[1][0], small) + 'print("R mark2")\n' + part(files[0][0], big) + 'print("R done")\n')
+    lua_fresh = os.path.join(wd, "fresh.lua")
+    open(lua_fresh, "w").write(part(files[1][0], small) + 'print("R done")\n')
+    outs = {}
+    for nm, lua in (("hist", lua_hist), ("fresh", lua_fresh)):
+        rc, out, err = vlib.sh([san.tool("femmcli"), "--lua-script=" + lua], cwd=wd, env=san_env(0xa5), timeout=900)
+        m = SAN_RE.search(err) or SAN_RE.search(out)
+        if m:
+            t = err if SAN_RE.search(err) else out
+            i = t.find(m.group(0))
+            return "sanitizer report in femmcli (second solution loaded in one session):\n" + t[max(0, i - 200):i + 1500], dict(big=big, small=small, script=open(lua).read().split("\n")[-40:])
+        if rc != 0 or "R done" not in out:
+            return "femmcli failed (rc=%d) in a session that loads a second solution: %s" % (rc, (out + err)[-300:]), dict(big=big, small=small)
+        outs[nm] = [l for l in out.split("\n") if l.startswith("R ")]
+    h = outs["hist"]
+    mid = h[h.index("R mark1") + 1:h.index("R mark2")]
+    fresh = [l for l in outs["fresh"] if l != "R done"]
+    if mid != fresh:
+        d = [(a, b) for a, b in zip(mid, fresh) if a != b][:3]
+        return "answers for a solution depend on what the session loaded before: %r" % (d or (len(mid), len(fresh)),), dict(big=big, small=small)
+    first, last = h[:h.index("R mark1")], [l for l in h[h.index("R mark2") + 1:] if l != "R done"]
+    if first != last:
+        d = [(a, b) for a, b in zip(first, last) if a != b][:3]
+        return "answers for a solution differ when it is loaded a second time in one session: %r" % (d,), dict(big=big, small=small)
+    return None, None
+
+
 def correspond(ctx):
     rng = ctx.rng
     try:
@@ -262,6 +332,12 @@ def correspond(ctx):
         feats["valgrind-post"] = feats.get("valgrind-post", 0) + 1
         if msg:
             ctx.fail("uninitialised / invalid memory use: " + msg[:2500], problem=p, signature="valgrind:" + kind)
+    for k, kind in enumerate(("fee", "feh", "fem")):
+        msg, rp = history_session(ctx, san, k, kind)
+        n += 1
+        feats["session-with-history"] = feats.get("session-with-history", 0) + 1
+        if msg:
+            ctx.fail("memory safety / history independence: " + msg[:2500], signature="history:" + kind, **(rp or {}))
     cov = ctx.res.cov
     cov["evaluations"] = n
     cov["distinct_nontrivial"] = n
@@ -270,7 +346,9 @@ def correspond(ctx):
                    "twice with different MALLOC_PERTURB_ and byte-compared; Lua edit scripts with copy/mirror/rotate/move and repeated "
                    "copies that grow the lists; the repository's own example problems through mesher and solver of the sanitizer "
                    "build (libstdc++ assertions on); femmcli of the plain build under valgrind memcheck (analysis, every block "
-                   "integral type, line integrals, point values) for uninitialised reads")
+                   "integral type, line integrals, point values) for uninitialised reads; per physics one femmcli session of the sanitizer "
+                   "build that post-processes a large solution, a small one and the large one again (answers must equal those of a "
+                   "fresh process)")
     cov["input_distribution"] = feats
     cov["samples"] = samples
     return []
